@@ -101,6 +101,27 @@ func c05rHasByteSlice(t *g.Type) bool {
 	return false
 }
 
+// c05rName draws a key name whose letters are uniform over a..z / A..Z (edges of the classes
+// included on purpose), with digits and the given separators inside.
+func c05rName(r *rand.Rand, seps string) string {
+	const letters = "abcdefghijklmnopqrstuvwxyzABCDEFGHIJKLMNOPQRSTUVWXYZ"
+	n := 1 + r.Intn(6)
+	b := make([]byte, 0, n+2)
+	for i := 0; i < n; i++ {
+		switch x := r.Intn(12); {
+		case x == 0 && i > 0 && i < n-1:
+			b = append(b, seps[r.Intn(len(seps))])
+		case x == 1 && i > 0:
+			b = append(b, "0123456789"[r.Intn(10)])
+		case x < 5:
+			b = append(b, "azAZ"[r.Intn(4)])
+		default:
+			b = append(b, letters[r.Intn(len(letters))])
+		}
+	}
+	return string(b)
+}
+
 type c05rReq struct {
 	shape   *g.Shape
 	pattern string
@@ -114,7 +135,7 @@ func c05rShape(r *rand.Rand, idx int) *c05rReq {
 	pattern := fmt.Sprintf("/c05/s%d", idx)
 	for i, n := 0, r.Intn(3); i < n; i++ {
 		k := c05rScalarKinds[r.Intn(len(c05rScalarKinds))]
-		key := fmt.Sprintf("p%d", i+1)
+		key := fmt.Sprintf("%s%d", c05rName(r, "_"), i+1) // path variable names: letters of both cases, digits, '_'
 		f := &g.Field{Name: fmt.Sprintf("P%d", i+1), TagKey: "path", Key: key, T: g.L(k), O: c05rScalarOpts(r, k, "path")}
 		fields = append(fields, f)
 		req.parts[f.Name] = "path"
@@ -125,15 +146,19 @@ func c05rShape(r *rand.Rand, idx int) *c05rReq {
 	}
 	for i, n := 0, r.Intn(4); i < n; i++ {
 		k := c05rScalarKinds[r.Intn(len(c05rScalarKinds))]
-		f := &g.Field{Name: fmt.Sprintf("Q%d", i+1), TagKey: "form", Key: fmt.Sprintf("q%dName", i+1), T: g.L(k), O: c05rScalarOpts(r, k, "form")}
+		f := &g.Field{Name: fmt.Sprintf("Q%d", i+1), TagKey: "form", Key: fmt.Sprintf("%s%d", c05rName(r, "_-"), i+1), T: g.L(k), O: c05rScalarOpts(r, k, "form")}
 		fields = append(fields, f)
 		req.parts[f.Name] = "form"
 	}
 	for i, n := 0, r.Intn(3); i < n; i++ {
 		k := c05rScalarKinds[r.Intn(len(c05rScalarKinds))]
-		key := fmt.Sprintf("X-C05-H%d", i+1)
-		if r.Intn(3) == 0 {
+		// header names: any case mix of letters (the parser canonicalises), digits, '-' between words
+		key := fmt.Sprintf("X-C05-%s-%d", c05rName(r, "-"), i+1)
+		switch r.Intn(4) {
+		case 0:
 			key = strings.ToLower(key)
+		case 1:
+			key = strings.ToUpper(key)
 		}
 		f := &g.Field{Name: fmt.Sprintf("H%d", i+1), TagKey: "header", Key: key, T: g.L(k), O: c05rScalarOpts(r, k, "header")}
 		fields = append(fields, f)
